@@ -9,6 +9,8 @@ NOTE = ('Trusted: the symx facade model of NumPy (every explored path sample is 
 CLAIMED = {
  'C01': dict(text='For every 4-node support family listed in the evidence, every non-zero real weight assignment and every sequence of random draws within the draw budget, the real rewiring/latticising routines are executed symbolically and degree/multiset/diagonal/symmetry/out-strength/edge-list invariants are proved by z3 on every path (and after every accepted swap through the hook).',
              ref='DESIGN.md section 4 C01'),
+ 'C11': dict(text='Same symbolic explorations as C01 with the C11 assertions: Boolean-closure connectivity of the matrix after every accepted swap and at return (connected / strongly connected 4-node supports, symbolic weights and draws), BCTParamError on every path for disconnected or asymmetric input, lattice cost never increased for a caller-supplied D (symbolic weights with circular D; symbolic D with unit weights), and the symmetric symbolic mask of randomize_graph_partial_und respected.',
+             ref='DESIGN.md section 4 C11'),
 }
 NA = {}
 def repo_hook_commits():
